@@ -156,7 +156,7 @@ Fixpoint geval (funcs:gfundefs) (vars:gvardefs) (n:nat) (env:genv) (e:gexpr) (t:
   | GBin op a b =>
       doo va, t1 <- geval funcs vars n env a t;
       doo vb, t2 <- geval funcs vars n env b t1;
-      of_opt "operator: operands" (arith gops op va vb) t2
+      of_opt (arith_why gops op va vb) (arith gops op va vb) t2
   | GFunc ps body => Done (GVClo env ps body) t
   | GCall f args =>
       doo fv, t0 <- geval funcs vars n env f t;
